@@ -17,9 +17,19 @@ namespace {
 bool g_thorough = false;
 
 // ================================================================== fixVariableInterfaces
-const char *IFACE[] = {"", "public", "private", "public_and_private", "none", "foo"}; // "" = never set
+// "" = never set; 1..3 legal and meaningful; "none" legal but never sufficient; the rest invalid: "foo" and, for every legal value,
+// strings that contain it as prefix, suffix and infix (an invalid string is never a sufficient interface, whatever it contains)
+const char *IFACE[] = {"", "public", "private", "public_and_private", "none", "foo",
+                       "publicx", "xpublic", "xpublicx", "privatex", "xprivate", "xprivatex", "public_and_privatex", "xpublic_and_private", "xpublic_and_privatex",
+                       "nonex", "xnone", "xnonex", "private_and_public", "public_private", "none_public", "public private", "Public", "PRIVATE"};
+const int NBASE = 6, NIFACE = int(sizeof IFACE / sizeof IFACE[0]);
+// families: 1,2,3 = that many links; 4 = two links with the hub string over the whole menu (fix2x)
+int famK(int f) { return f <= 3 ? f : 2; }
+int hubMenu(int f) { return (f == 1 || f == 4) ? NIFACE : NBASE; }
+int tgtMenu(int f) { return f == 1 ? NIFACE : NBASE; }
+uint64_t perStruct(int f) { uint64_t r = uint64_t(hubMenu(f)); for (int i = 0; i < famK(f); ++i) r *= uint64_t(tgtMenu(f)); return r; }
 struct FixStruct { int n; std::vector<int> par; int hub; std::vector<int> targets; };
-std::vector<FixStruct> g_fix[4]; // by k
+std::vector<FixStruct> g_fix[5]; // by family
 
 void forests(int n, std::vector<std::vector<int>> &out)
 {
@@ -33,8 +43,9 @@ void forests(int n, std::vector<std::vector<int>> &out)
 }
 void buildFixStructs()
 {
-    for (int k = 1; k <= 3; ++k) {
-        int nmax = k <= 2 ? (g_thorough ? 5 : 4) : (g_thorough ? 4 : 3);
+    for (int f = 1; f <= 4; ++f) {
+        int k = famK(f);
+        int nmax = f <= 2 ? (g_thorough ? 5 : 4) : (g_thorough ? 4 : 3);
         for (int n = 1; n <= nmax; ++n) {
             std::vector<std::vector<int>> fs;
             forests(n, fs);
@@ -42,7 +53,7 @@ void buildFixStructs()
             for (auto &par : fs) for (int hub = 0; hub < n; ++hub) {
                 std::vector<int> seq;
                 std::function<void()> rec = [&]() {
-                    if (int(seq.size()) == k) { g_fix[k].push_back({n, par, hub, seq}); return; }
+                    if (int(seq.size()) == k) { g_fix[f].push_back({n, par, hub, seq}); return; }
                     for (int t = 0; t < places; ++t) {
                         if (t == hub || std::find(seq.begin(), seq.end(), t) != seq.end()) continue;
                         seq.push_back(t); rec(); seq.pop_back();
@@ -53,7 +64,6 @@ void buildFixStructs()
         }
     }
 }
-uint64_t pw6(int e) { uint64_t r = 1; while (e-- > 0) r *= 6; return r; }
 
 // relation of the component at place a to the component at place b, from the parent vector only
 enum Rel { SIBLING, PARENT_OF_ME, CHILD_OF_ME, UNREACHABLE_IN_MODEL, OTHER_MODEL, OUTSIDE_ANY_MODEL, NO_COMPONENT };
@@ -128,13 +138,14 @@ json fixShow(const FixStruct &s, const std::vector<int> &assign)
     j["targets_in_order_of_addEquivalence"] = t;
     return j;
 }
-void decodeFix(int k, uint64_t idx, const FixStruct *&s, std::vector<int> &assign)
+void decodeFix(int f, uint64_t idx, const FixStruct *&s, std::vector<int> &assign)
 {
-    uint64_t per = pw6(k + 1);
-    s = &g_fix[k].at(idx / per);
+    uint64_t per = perStruct(f);
+    s = &g_fix[f].at(idx / per);
     Radix r(idx % per);
     assign.clear();
-    for (int i = 0; i <= k; ++i) assign.push_back(int(r.take(6)));
+    assign.push_back(int(r.take(uint64_t(hubMenu(f)))));
+    for (int i = 0; i < famK(f); ++i) assign.push_back(int(r.take(uint64_t(tgtMenu(f)))));
 }
 std::map<std::string, int> g_emitted;
 void report(Ctx &c, const std::string &sig, const json &detail)
@@ -142,11 +153,11 @@ void report(Ctx &c, const std::string &sig, const json &detail)
     c.count("violations_by_class:" + sig);
     if (g_emitted[sig]++ < 2) c.violation(sig, detail);
 }
-void runFix(int k, uint64_t idx, Ctx &c)
+void runFix(int f, uint64_t idx, Ctx &c)
 {
     const FixStruct *sp;
     std::vector<int> assign;
-    decodeFix(k, idx, sp, assign);
+    decodeFix(f, idx, sp, assign);
     const FixStruct &s = *sp;
     FixWorld w = buildFix(s, assign);
     CanonOpt o; o.sort = false;
@@ -546,11 +557,11 @@ int main(int argc, char **argv)
     buildFixStructs();
     buildCleanIndex();
     auto fixFam = [](int k) {
-        return Family{"fix" + std::to_string(k), [k] { return uint64_t(g_fix[k].size()) * pw6(k + 1); }, [k](uint64_t i, Ctx &c) { runFix(k, i, c); },
+        return Family{k == 4 ? std::string("fix2x") : "fix" + std::to_string(k), [k] { return uint64_t(g_fix[k].size()) * perStruct(k); }, [k](uint64_t i, Ctx &c) { runFix(k, i, c); },
                       [k](uint64_t i) { const FixStruct *s; std::vector<int> a; decodeFix(k, i, s, a); return fixShow(*s, a); }};
     };
     std::vector<Family> fs = {
-        fixFam(1), fixFam(2), fixFam(3),
+        fixFam(1), fixFam(2), fixFam(3), fixFam(4),
         {"link", [] { return uint64_t(2 * 6 * 6 * 6 * 6); }, runLink, linkShow},
         {"cleanc", [] { return g_ci.total; }, runCleanC, [](uint64_t i) { CleanCase cc = decodeClean(i); return json{{"what", cc.what}, {"top_level_components", specJson(cc.root)["components"]}}; }},
         {"cleanu", cleanUCount, runCleanU, [](uint64_t i) { json a = json::array(); for (int k : decodeU(i)) a.push_back(UKIND[k]); return json{{"units_in_order", a}}; }},
